@@ -243,6 +243,7 @@ theorem rc_safe {n : Nat} {s : RC} (hi : RInv n s) :
     have : ¬ s.rootAttempts = 0 := fun h => by have := rootOK.2.2 h; simp [hr] at this
     omega
 
+omit F in
 /-- when every finisher is done: everything is gone, one successful Remove, one cancel. -/
 theorem rc_complete {n : Nat} {s : RC} (hi : RInv n s) (hc : s.complete = true) :
     s.root = false ∧ s.rootAttempts = 1 ∧ s.rootFailed = 0 ∧ s.cancels = 1 ∧ s.wd = List.replicate n false ∧ s.count = 0 := by
